@@ -460,19 +460,7 @@ func (s *Store) CreateLease(lease *Lease) error {
 	lease.LastActivity = lease.CreatedAt
 
 	s.leases[lease.ID] = lease
-
-	// Index by IP
-	if lease.IPv4 != nil {
-		s.leaseByIP[lease.IPv4.String()] = lease.ID
-	}
-	if lease.IPv6 != nil {
-		s.leaseByIP[lease.IPv6.String()] = lease.ID
-	}
-
-	// Index by MAC
-	if lease.MAC != nil {
-		s.leaseByMAC[lease.MAC.String()] = lease.ID
-	}
+	s.indexLease(lease)
 
 	// Update pool allocation count
 	if pool, exists := s.pools[lease.PoolID]; exists {
@@ -532,15 +520,71 @@ func (s *Store) UpdateLease(lease *Lease) error {
 	s.mu.Lock()
 	defer s.mu.Unlock()
 
-	if _, exists := s.leases[lease.ID]; !exists {
+	old, exists := s.leases[lease.ID]
+	if !exists {
 		return fmt.Errorf("lease not found: %s", lease.ID)
 	}
 
 	lease.UpdatedAt = time.Now()
 	lease.LastActivity = time.Now()
+
+	// Keep the by-IP / by-MAC indexes in step with the record: the address or
+	// MAC may have changed (or been set for the first time) with this update.
+	if old == lease {
+		// The stored record was modified in place: its previous keys are unknown,
+		// so drop every index entry that still points at it.
+		dropIndexEntries(s.leaseByIP, lease.ID)
+		dropIndexEntries(s.leaseByMAC, lease.ID)
+	} else {
+		s.unindexLease(old)
+	}
 	s.leases[lease.ID] = lease
+	s.indexLease(lease)
 	s.stats.Writes++
 	return nil
+}
+
+// indexLease adds a lease to the by-IP and by-MAC indexes. Caller holds s.mu.
+func (s *Store) indexLease(lease *Lease) {
+	if lease.IPv4 != nil {
+		s.leaseByIP[lease.IPv4.String()] = lease.ID
+	}
+	if lease.IPv6 != nil {
+		s.leaseByIP[lease.IPv6.String()] = lease.ID
+	}
+	if lease.MAC != nil {
+		s.leaseByMAC[lease.MAC.String()] = lease.ID
+	}
+}
+
+// unindexLease removes a lease's index entries. An entry that already points at
+// another (newer) lease with the same key is left alone. Caller holds s.mu.
+func (s *Store) unindexLease(lease *Lease) {
+	if lease.IPv4 != nil {
+		deleteIndexEntry(s.leaseByIP, lease.IPv4.String(), lease.ID)
+	}
+	if lease.IPv6 != nil {
+		deleteIndexEntry(s.leaseByIP, lease.IPv6.String(), lease.ID)
+	}
+	if lease.MAC != nil {
+		deleteIndexEntry(s.leaseByMAC, lease.MAC.String(), lease.ID)
+	}
+}
+
+// deleteIndexEntry deletes index[key] only if it points at id.
+func deleteIndexEntry(index map[string]string, key, id string) {
+	if cur, ok := index[key]; ok && cur == id {
+		delete(index, key)
+	}
+}
+
+// dropIndexEntries deletes every entry of index that points at id.
+func dropIndexEntries(index map[string]string, id string) {
+	for key, cur := range index {
+		if cur == id {
+			delete(index, key)
+		}
+	}
 }
 
 // RenewLease renews a lease.
@@ -575,15 +619,7 @@ func (s *Store) DeleteLease(id string) error {
 	}
 
 	// Remove from indexes
-	if lease.IPv4 != nil {
-		delete(s.leaseByIP, lease.IPv4.String())
-	}
-	if lease.IPv6 != nil {
-		delete(s.leaseByIP, lease.IPv6.String())
-	}
-	if lease.MAC != nil {
-		delete(s.leaseByMAC, lease.MAC.String())
-	}
+	s.unindexLease(lease)
 
 	// Update pool allocation count
 	if pool, exists := s.pools[lease.PoolID]; exists {
@@ -627,19 +663,31 @@ func (s *Store) CreateSession(session *Session) error {
 	session.LastActivity = session.CreatedAt
 
 	s.sessions[session.ID] = session
-
-	// Index by MAC
-	if session.MAC != nil {
-		s.sessionByMAC[session.MAC.String()] = session.ID
-	}
-
-	// Index by IP
-	if session.IPv4 != nil {
-		s.sessionByIP[session.IPv4.String()] = session.ID
-	}
+	s.indexSession(session)
 
 	s.stats.Writes++
 	return nil
+}
+
+// indexSession adds a session to the by-MAC and by-IP indexes. Caller holds s.mu.
+func (s *Store) indexSession(session *Session) {
+	if session.MAC != nil {
+		s.sessionByMAC[session.MAC.String()] = session.ID
+	}
+	if session.IPv4 != nil {
+		s.sessionByIP[session.IPv4.String()] = session.ID
+	}
+}
+
+// unindexSession removes a session's index entries. An entry that already points
+// at another (newer) session with the same key is left alone. Caller holds s.mu.
+func (s *Store) unindexSession(session *Session) {
+	if session.MAC != nil {
+		deleteIndexEntry(s.sessionByMAC, session.MAC.String(), session.ID)
+	}
+	if session.IPv4 != nil {
+		deleteIndexEntry(s.sessionByIP, session.IPv4.String(), session.ID)
+	}
 }
 
 // GetSession retrieves a session by ID.
@@ -691,12 +739,23 @@ func (s *Store) UpdateSession(session *Session) error {
 	s.mu.Lock()
 	defer s.mu.Unlock()
 
-	if _, exists := s.sessions[session.ID]; !exists {
+	old, exists := s.sessions[session.ID]
+	if !exists {
 		return fmt.Errorf("session not found: %s", session.ID)
 	}
 
 	session.UpdatedAt = time.Now()
+
+	// Keep the by-MAC / by-IP indexes in step with the record: a session usually
+	// gets its address only after it was created.
+	if old == session {
+		dropIndexEntries(s.sessionByMAC, session.ID)
+		dropIndexEntries(s.sessionByIP, session.ID)
+	} else {
+		s.unindexSession(old)
+	}
 	s.sessions[session.ID] = session
+	s.indexSession(session)
 	s.stats.Writes++
 	return nil
 }
@@ -730,12 +789,7 @@ func (s *Store) DeleteSession(id string) error {
 	}
 
 	// Remove from indexes
-	if session.MAC != nil {
-		delete(s.sessionByMAC, session.MAC.String())
-	}
-	if session.IPv4 != nil {
-		delete(s.sessionByIP, session.IPv4.String())
-	}
+	s.unindexSession(session)
 
 	delete(s.sessions, id)
 	s.stats.Deletes++
@@ -889,15 +943,7 @@ func (s *Store) cleanupExpiredLeases() {
 		lease.State = LeaseStateExpired
 
 		// Remove from indexes
-		if lease.IPv4 != nil {
-			delete(s.leaseByIP, lease.IPv4.String())
-		}
-		if lease.IPv6 != nil {
-			delete(s.leaseByIP, lease.IPv6.String())
-		}
-		if lease.MAC != nil {
-			delete(s.leaseByMAC, lease.MAC.String())
-		}
+		s.unindexLease(lease)
 
 		// Update pool allocation count
 		if pool, exists := s.pools[lease.PoolID]; exists {
@@ -957,12 +1003,7 @@ func (s *Store) cleanupIdleSessions() {
 		session := s.sessions[id]
 
 		// Remove from indexes
-		if session.MAC != nil {
-			delete(s.sessionByMAC, session.MAC.String())
-		}
-		if session.IPv4 != nil {
-			delete(s.sessionByIP, session.IPv4.String())
-		}
+		s.unindexSession(session)
 
 		delete(s.sessions, id)
 		s.stats.Deletes++
